@@ -39,9 +39,11 @@ CLAIMED["C14"] = {
             "is_optimal is the tolerant sign test of every reduced cost; find_h (Bland and Dantzig) returns a non-basic column whose reduced cost is below zero beyond the tolerance and None only when there is none; "
             "find_t returns an eligible row with its own ratio such that no eligible row has a ratio smaller by more than the tolerance, and None only without an eligible row. "
             "Bringing find_t under contract showed that the contract the step proof had ASSUMED for it was false (tie-break drift, one tolerance per near-tied row): a genuine defect, repaired (fix d8d6f69) and pinned by a bounded search over near-tie chains and pseudo-random tableaux on the real code. "
+            "The phase-one tableau of the two-phase start is proved as a statement slice (U14.ph1: artificial unit columns form the starting basis; on the solution set of the extended system the objective row measures exactly the sum of the artificial variables), "
+            "and the point read off a tableau is the basic solution, which solves the system of a canonical tableau (U14.vals, ghost theorem lemma_basic_sat). "
             "Anti-cycling (finishing within the iteration limit) is liveness and is NOT decided.",
     "note": "Trusted: prelude/f64_layer.rs (exact real arithmetic on finite floats; powi by a one-entry table). Which of several rows tied within the tolerance leaves is not constrained (any of them satisfies the contract). A Kani harness re-checks find_h under CBMC's IEEE float model in the thorough tier (bounded). "
-            "Not decided: termination/anti-cycling, two-phase drive-out (split_at_mut code neither back end takes).",
+            "Not decided: termination/anti-cycling, the phase-one solve / drive-out / restoring of the objective in the two-phase start (nested in a match arm, split_at_mut).",
     "technique": "Verus loop invariants + ghost linear-algebra lemmas on extracted Tableau::pivot / step_inner / find_h / find_t / is_optimal; bounded executable-postcondition search for the ratio test; Kani bounded cross-check of find_h (thorough)",
     "design_ref": "DESIGN.md §5 C14",
 }
@@ -124,7 +126,8 @@ CLAIMED["C04"] = {
             "row j = constraint j term by term with the same relation and right-hand side; direction), and that a returned solution is the library's feasible point read back faithfully: one assignment per variable in order, "
             "integer and Boolean values exact, reported value = library objective + offset. optimal_value of the tableau path maps the sign flip and offset correctly. "
             "LinearModel::calc_constraints / calc_objective are proved to report, for every row in order and under the row's own name, exactly that row's left-hand side at the given values, and the objective function at the values plus the offset (U04.act). "
-            "LpSolution::new is used through its contract, proved in U16.sol. "
+            "LpSolution::new is used through its contract, proved in U16.sol. For the tableau path, Tableau::variables_values is proved to return the basic solution, and the basic solution of a canonical tableau solves its equation system (U14.vals; pivots keep that system equivalent, U14.pivot); "
+            "the mapping of standard-form variables back to the model's variables by their generated names (as_lp_solution) is not under contract. "
             "BOUNDED (labelled, not counted as proved): the property's own statement is executed on the real default-feature solvers (tableau simplex incl. as_lp_solution, Clarabel through the good_lp bridge, the microlp LP and MILP bridges, the auto solver) "
             "over about 1800 three-variable models: every returned solution is checked against the model (rows, bounds, integrality, one value per variable, objective incl. offset, named-row activities). "
             "NOT decided deductively: feasibility inside the external solvers themselves (assumed contract), the good_lp/Clarabel bridge (generic trait plumbing and closures), the filter of make_constraints_map_from_assignment (rows named __*), the name filtering of as_lp_solution: all four are covered by the bounded check only.",
